@@ -280,7 +280,7 @@ PROPS["C20"] = {
                            "4": "the parser panicked"},
                 "trie": {"1": "the trie returned a template that does not match the looked-up path", "4": "the trie panicked"}},
     "rule": "grammar-directed generation: abstract templates derived from httprule.bnf (literals of every pchar class incl. percent escapes and colons, *, **, variables with 1-3 field path components and 1-3 inner segments, optional verbs, the root template), rendered with and without the {a} shorthand; two single-edit mutants of every rendering (insert / delete / replace / duplicate / drop the leading slash, from an alphabet of structural characters, NUL, space, non-ASCII, broken escapes); noise strings; the near misses named in the property verbatim. Each string goes to the routing parser (+ Compile + runtime.NewPattern), to the strict parser, and sets of parsed templates to the trie with paths built to match or nearly match them",
-    "level_text": "Coq theorems: parse(render t) = Some t for ALL well-formed templates t of the routing parser's model (tokenizer with three states, verb extraction, recursive descent) - every derivable string is accepted with exactly the structure, field paths and verb it was written from; rendering is injective (the text determines the structure); compile correctness (the opcode machine computes the template's own matching); opcodes can be read back. The converse (accepted => rendering of the accepted structure) and the strict parser / trie are decided by the executable grammar on every generated string: that half is not a theorem.",
+    "level_text": "Coq theorems: parse(render t) = Some t for ALL well-formed templates t of the routing parser's model (tokenizer with three states, verb extraction, recursive descent) - every derivable string is accepted with exactly the structure, field paths and verb it was written from; and conversely (gw_parse_sound) every text the routing parser accepts has a derivation in the grammar, stated as a relation on strings (non-empty literals of path characters with well-formed escapes, identifiers in field paths, no NUL, braces balanced) with exactly the returned structure, field paths and verb; rendering is injective (the text determines the structure); compile correctness (the opcode machine computes the template's own matching); opcodes can be read back. The converse (accepted => rendering of the accepted structure) and the strict parser / trie are decided by the executable grammar on every generated string: that half is not a theorem.",
     "level_note": "Trusted: Coq kernel, extraction, modelrun, Go harness, the generator's coverage of the grammar. The routing-parser model (tokenizer, recursive descent) equals the code on every generated string (hundreds of thousands in the thorough tier).",
     "design_ref": "DESIGN.md §3 C20",
     "assumptions": ["LITERAL is read as one or more pchars for path segments (an empty segment is not a template), zero or more for the verb: '/a:' is '/a' with an empty verb, '/:v' the root with a verb",
